@@ -1,1 +1,66 @@
-(* placeholder *)
+(* C12 -- URI-prefix remapping and rewiring re-point records without losing information.
+   repoint c r n skip is what remap_uri_prefixes (skip = false) and rewire (skip = true) do to one record r whose first
+   hit in the mapping is the new URI prefix n; step applies it to every record. *)
+From Curies.model Require Import Str PyData Trie Conv Query Val Answer Spec CheckQ Mutate Reconcile.
+From Curies.proofs Require Import StrFacts IndexFacts QueryFacts C04Facts MutateFacts ReconcileFacts.
+
+(* TransitiveError exactly when some string is both a key and a value *)
+Theorem C12_transitive : forall c m, remap_uri_records c m = Raise ETransitive <-> exists s, In s (map fst m) /\ In s (map snd m).
+Proof. exact transitive_iff. Qed.
+Print Assumptions C12_transitive.
+
+(* per record: identical CURIE prefix, synonyms and pattern *)
+Theorem C12_curie_same : forall c r n skip, let r' := repoint c r n skip in
+  r_prefix r' = r_prefix r /\ r_psyn r' = r_psyn r /\ r_pat r' = r_pat r.
+Proof. exact repoint_curie_side. Qed.
+Print Assumptions C12_curie_same.
+(* keeps every URI prefix it had; gains at most the mapped new one *)
+Theorem C12_kept : forall c r n skip x, In x (all_uris r) -> In x (all_uris (repoint c r n skip)).
+Proof. exact repoint_keeps. Qed.
+Print Assumptions C12_kept.
+Theorem C12_gain : forall c r n skip x, In x (all_uris (repoint c r n skip)) -> x = n \/ In x (all_uris r).
+Proof. exact repoint_gains. Qed.
+Print Assumptions C12_gain.
+(* the new one becomes canonical exactly when it is unused in c or already a synonym of that record
+   (the replaced canonical URI prefix becomes a synonym) ... *)
+Theorem C12_canonical : forall c r n skip, (dhas n (rpmap c) = false \/ In n (r_usyn r)) -> n <> r_uri r ->
+  r_uri (repoint c r n skip) = n /\ In (r_uri r) (r_usyn (repoint c r n skip)).
+Proof. exact repoint_canonical. Qed.
+Print Assumptions C12_canonical.
+(* ... and a new URI prefix owned by another record leaves the record untouched *)
+Theorem C12_clash_noop : forall c r n skip, dhas n (rpmap c) = true -> ~ In n (r_usyn r) -> repoint c r n skip = r.
+Proof. exact repoint_clash_noop. Qed.
+Print Assumptions C12_clash_noop.
+Theorem C12_registered_means : forall c, swf c -> forall n, dhas n (rpmap c) = true <-> exists y, In y (recs c) /\ In n (all_uris y).
+Proof. exact known_uri. Qed.
+Print Assumptions C12_registered_means.
+
+(* rewiring a CURIE prefix unknown to the converter adds nothing *)
+Theorem C12_unknown : forall c m, (forall r k, In r (recs c) -> In k (all_prefixes r) -> dhas k m = false) -> rewire_records c m = recs c.
+Proof. exact rewire_unknown. Qed.
+Print Assumptions C12_unknown.
+
+(* injective mappings: the result is a consistent strict converter over the re-pointed records *)
+Theorem C12_remap_uri_ok : forall c m, swf c -> NoDup (map snd m) -> (forall s, In s (map fst m) -> In s (map snd m) -> False) ->
+  exists R, remap_uri_prefixes c m = Val R /\ recs R = sort_records (map (step c m all_uris false) (recs c)) /\ swf R.
+Proof. exact remap_uri_ok. Qed.
+Print Assumptions C12_remap_uri_ok.
+Theorem C12_rewire_ok : forall c m, swf c -> NoDup (map snd m) ->
+  exists R, rewire c m = Val R /\ recs R = sort_records (rewire_records c m) /\ swf R.
+Proof. exact rewire_ok. Qed.
+Print Assumptions C12_rewire_ok.
+(* applying the same rewiring twice equals applying it once *)
+Theorem C12_idem : forall c m, swf c -> NoDup (map snd m) ->
+  exists R R2, rewire c m = Val R /\ rewire R m = Val R2 /\ recs R2 = recs R.
+Proof. exact rewire_idempotent. Qed.
+Print Assumptions C12_idem.
+
+Definition r (p u : str) ps us := {| r_prefix := p; r_uri := u; r_psyn := ps; r_usyn := us; r_pat := None |}.
+Example C12_nonvacuous :
+  (exists c, mk_conv true [58] [r [97] [104] [] [[105]]; r [98] [106] [] []] = Val c /\
+    (exists R, remap_uri_prefixes c [([104], [110]); ([106], [105])] = Val R /\
+       recs R = [r [97] [110] [] [[104]; [105]]; r [98] [106] [] []]) /\
+    remap_uri_prefixes c [([104], [106]); ([106], [110])] = Raise ETransitive /\
+    (exists R, rewire c [([97], [105])] = Val R /\ recs R = [r [97] [105] [] [[104]]; r [98] [106] [] []]))%N.
+Proof. eexists. split; [vm_compute; reflexivity|]. split; [eexists; split; vm_compute; reflexivity|]. split; [vm_compute; reflexivity|].
+  eexists; split; vm_compute; reflexivity. Qed.
